@@ -111,6 +111,9 @@ func (h *H) Sample() {
 	}
 }
 
+// TooMany reports that enough violations were collected: generators stop early (the run is a failure anyway).
+func (h *H) TooMany() bool { return h.Hist["oracle-violation"] >= 8 }
+
 // Violate records a violation of the property's own oracle on the implementation.
 func (h *H) Violate(what string) {
 	ops := make([]string, 0, len(h.curCase))
